@@ -42,11 +42,16 @@ _Static_assert(sizeof(protobuf_c_boolean) == 4, "protobuf_c_boolean is a 4-byte 
 /* errors                                                                    */
 /* ------------------------------------------------------------------------- */
 
-static jmp_buf g_jmp;
-static char g_err[256];
+/* per-case state is thread local so that the -j mode (C17 tie, under ThreadSanitizer) can run
+ * cases on several threads against the shared, read-only descriptors */
+#ifndef DRV_TLS
+# define DRV_TLS __thread
+#endif
+static DRV_TLS jmp_buf g_jmp;
+static DRV_TLS char g_err[256];
 static int g_in_schema = 1;	/* schema errors are fatal (exit 2) */
 static FILE *g_fp;		/* the case file */
-static unsigned long g_lineno;
+static DRV_TLS unsigned long g_lineno;
 
 static void drv_fail(const char *fmt, ...) __attribute__((noreturn, format(printf, 1, 2)));
 static void
@@ -78,8 +83,8 @@ drv_die(const char *msg)
 /* end of the case (keeps ASan/LSan clean even on ERR paths)                 */
 /* ------------------------------------------------------------------------- */
 
-static void **g_arena;
-static size_t g_arena_n, g_arena_cap;
+static DRV_TLS void **g_arena;
+static DRV_TLS size_t g_arena_n, g_arena_cap;
 
 /* exact-size allocation (so that ASan sees over-reads); never returns NULL */
 static void *
@@ -125,8 +130,8 @@ arena_release(void)
 /* output buffer: one line is assembled, then written (or replaced by ERR)    */
 /* ------------------------------------------------------------------------- */
 
-static char *g_ob;
-static size_t g_ob_len, g_ob_cap;
+static DRV_TLS char *g_ob;
+static DRV_TLS size_t g_ob_len, g_ob_cap;
 
 static void
 ob_reserve(size_t extra)
@@ -224,7 +229,7 @@ ob_hex64(uint64_t v)
 /* tokenizer (tokens are separated by single spaces; done in place)          */
 /* ------------------------------------------------------------------------- */
 
-static char *g_cur;		/* NULL when the line is exhausted */
+static DRV_TLS char *g_cur;		/* NULL when the line is exhausted */
 
 static char *
 tok_opt(void)
@@ -1139,7 +1144,7 @@ typedef struct {
 	size_t n, ncap;
 } ChunkBuf;
 
-static ChunkBuf g_cb;		/* storage is reused from case to case */
+static DRV_TLS ChunkBuf g_cb;		/* storage is reused from case to case */
 
 static void
 chunk_append(ProtobufCBuffer *b, size_t len, const uint8_t *data)
@@ -1191,7 +1196,7 @@ chunk_reset(void)
 }
 
 /* a buffer that only reads what it is given (CHECK child) */
-static volatile unsigned g_sink;
+static DRV_TLS volatile unsigned g_sink;
 
 static void
 discard_append(ProtobufCBuffer *b, size_t len, const uint8_t *data)
@@ -1237,7 +1242,7 @@ typedef struct {
 	int freed_scratch;
 } Recorder;
 
-static Recorder g_rec;
+static DRV_TLS Recorder g_rec;
 #define PS_TOMB ((void *) (uintptr_t) 1)
 
 static size_t
@@ -1763,6 +1768,79 @@ run_case(char *line)
 		drv_fail("unknown case kind '%.20s'", kw);
 }
 
+
+/* ---- multi-threaded mode: impl_driver -j <nthreads> <casefile> ---------------------------------
+ * The schema is read on the main thread; then case line i is run by thread i mod nthreads; outputs are
+ * printed in line order, so the output must equal the single-threaded output (CHECK lines are not
+ * supported here because they fork). */
+#include <pthread.h>
+typedef struct { char **lines; char **outs; size_t n; unsigned tid, nth; } MtJob;
+
+static void *
+mt_worker(void *arg)
+{
+	MtJob *j = arg;
+	size_t i;
+
+	g_rec.refuse_from = SIZE_MAX;
+	for (i = j->tid; i < j->n; i += j->nth) {
+		char *line = j->lines[i];
+		if (line[0] == '#' || line[0] == 0) { j->outs[i] = NULL; continue; }
+		g_ob_len = 0;
+		if (setjmp(g_jmp) == 0) {
+			run_case(line);
+		} else {
+			g_ob_len = 0;
+			ob_puts("ERR ");
+			ob_puts(g_err);
+		}
+		arena_release();
+		rec_purge();
+		ob_putc('\n');
+		j->outs[i] = malloc(g_ob_len + 1);
+		memcpy(j->outs[i], g_ob, g_ob_len);
+		j->outs[i][g_ob_len] = 0;
+	}
+	free(g_ob); g_ob = NULL; g_ob_cap = 0;
+	free(g_arena); g_arena = NULL; g_arena_cap = 0;
+	free(g_cb.bytes); free(g_cb.clen); free(g_cb.cnull); memset(&g_cb, 0, sizeof g_cb);
+	free(g_rec.refuse); free(g_rec.sizes); free(g_rec.refused); free(g_rec.tab); memset(&g_rec, 0, sizeof g_rec);
+	return NULL;
+}
+
+static int
+mt_main(unsigned nth, const char *path)
+{
+	FILE *fp = fopen(path, "r");
+	char *line = NULL; size_t cap = 0; ssize_t n;
+	char **lines = NULL, **outs; size_t nl = 0, cl = 0, i;
+	pthread_t *th; MtJob *jobs;
+
+	if (!fp) return 2;
+	g_fp = fp;
+	while ((n = getline(&line, &cap, fp)) != -1) {
+		g_lineno++;
+		while (n > 0 && (line[n - 1] == '\n' || line[n - 1] == '\r')) line[--n] = 0;
+		if (g_in_schema) { schema_line(line); continue; }
+		if (nl == cl) { cl = cl ? cl * 2 : 1024; lines = realloc(lines, cl * sizeof *lines); }
+		lines[nl++] = strdup(line);
+	}
+	free(line); fclose(fp);
+	arena_release();
+	outs = calloc(nl ? nl : 1, sizeof *outs);
+	th = calloc(nth, sizeof *th); jobs = calloc(nth, sizeof *jobs);
+	for (i = 0; i < nth; i++) {
+		jobs[i].lines = lines; jobs[i].outs = outs; jobs[i].n = nl; jobs[i].tid = i; jobs[i].nth = nth;
+		pthread_create(&th[i], NULL, mt_worker, &jobs[i]);
+	}
+	for (i = 0; i < nth; i++) pthread_join(th[i], NULL);
+	for (i = 0; i < nl; i++) { if (outs[i]) { fputs(outs[i], stdout); free(outs[i]); } free(lines[i]); }
+	free(lines); free(outs); free(th); free(jobs);
+	free(g_ob); free(g_arena);
+	schema_free();
+	return 0;
+}
+
 int
 main(int argc, char **argv)
 {
@@ -1771,8 +1849,10 @@ main(int argc, char **argv)
 	size_t line_cap = 0;
 	ssize_t n;
 
+	if (argc == 4 && strcmp(argv[1], "-j") == 0)
+		return mt_main((unsigned) atoi(argv[2]), argv[3]);
 	if (argc != 2) {
-		fprintf(stderr, "usage: %s <casefile>\n", argv[0]);
+		fprintf(stderr, "usage: %s [-j nthreads] <casefile>\n", argv[0]);
 		return 2;
 	}
 	fp = fopen(argv[1], "r");
